@@ -60,8 +60,40 @@ func (w *World) Apply(e Event) {
 		w.shards[e.I].outOfSync = true
 		w.BudgetF--
 	case "restart":
+		before := w.Assignment(e.I)
 		if err := w.shards[e.I].s.Restart(false); err != nil {
 			panic(fmt.Sprintf("restart: %v", err))
+		}
+		// a restart resumes the stored assignment; a copy whose move had begun and that the restart lets go of
+		// is judged like one the coordinator removed
+		after := w.Assignment(e.I)
+		w.Ghost = nil
+		for h := range before {
+			if _, still := after[h]; still || !w.moving[e.I][h] || w.T[h] == nil || !w.T[h].Discovered {
+				continue
+			}
+			best, otherMoving := -1, false
+			for j := range w.shards {
+				if j == e.I {
+					continue
+				}
+				if _, ok := w.Assignment(j)[h]; ok {
+					if w.moving[j][h] {
+						otherMoving = true
+					} else if w.since[j][h] > best {
+						best = w.since[j][h]
+					}
+				}
+			}
+			switch {
+			case otherMoving:
+			case best < 0:
+				w.Ghost = append(w.Ghost, fmt.Sprintf("no-destination-copy|shard %d let go of target %d (move begun) when its sidecar restarted, no other shard holds a normal copy", e.I, h))
+			case best < 3:
+				w.Ghost = append(w.Ghost, fmt.Sprintf("destination-scrapes<3|shard %d let go of target %d (move begun) when its sidecar restarted; the destination completed %d scrape(s) of it", e.I, h, best))
+			}
+			delete(w.since[e.I], h)
+			delete(w.moving[e.I], h)
 		}
 		for h := range w.since[e.I] {
 			w.since[e.I][h] = 0 // the sidecar lost its counters; the hand-over starts counting again
@@ -270,11 +302,14 @@ func (w *World) Enabled(progressOnly bool) []Event {
 			if w.Cfg.MoreFaults {
 				kinds = append(kinds, "wipe")
 			}
+			if len(w.Cfg.FaultKinds) > 0 {
+				kinds = w.Cfg.FaultKinds
+			}
 			for _, k := range kinds {
 				evs = append(evs, Event{Kind: k, I: i})
 			}
 		}
-		if len(w.shards) > 1 {
+		if len(w.shards) > 1 && len(w.Cfg.FaultKinds) == 0 {
 			evs = append(evs, Event{Kind: "shrink"})
 		}
 	}
